@@ -284,6 +284,45 @@ weights_frozen.cname = 'RoddedRegion._update_coolant_int_params/frame'
 weights_frozen.run_kw = dict(check_div=False)
 
 
+def property_state(S, cfg):
+    """the real RoddedRegion.calculate with recording kernels: whatever state the previous step's bypass update left the
+    coolant object in, the interior energy equation is evaluated with the properties at the interior average
+    temperature of the previous level, and each bypass gap with the properties at that gap's own average - the residual
+    of the balance is then the one-step property lag only (which shrinks with the step), not a difference between two
+    coolant streams (which does not). (Single-duct bundles have no other stream: there the state at entry IS the interior
+    average, set by the previous step's _update_coolant_int_params.)"""
+    n_duct = cfg['n_duct']
+    rr = make_rodded(S, n_ring=2, n_duct=n_duct, tdep=True)
+    set_int_params(S, rr)
+    set_temps(S, rr)
+    cp = rr.coolant._data['heat_capacity']
+    T_stale = S.pos('T_left_by_bypass_update', 600.0, 700.0)
+    rr._update_coolant(T_stale)
+    T_int = rr.avg_coolant_int_temp
+    seen = {}
+    nsc = rr.subchannel.n_sc['coolant']['total']
+    nd = rr.subchannel.n_sc['duct']['total']
+    zeros_int = np.array([0] * nsc, dtype=object if S.mode == 'sym' else float)
+
+    def int_kernel(dz, qp, qc, ebal=False):
+        seen['int'] = rr.coolant.heat_capacity
+        return zeros_int
+
+    def byp_kernel(dz, ebal=False):
+        seen['byp_called'] = True
+        return np.zeros((rr.n_bypass, nd)) if S.mode != 'sym' else np.array(np.zeros((rr.n_bypass, nd)), dtype=object)
+    with common.patched((rr, '_calc_duct_temp', lambda *a, **k: None), (rr, '_calc_coolant_int_temp', int_kernel),
+                        (rr, '_update_coolant_int_params', lambda *a, **k: None),
+                        (rr, '_calc_coolant_byp_temp', byp_kernel), (rr, '_update_coolant_byp_params', lambda *a, **k: None)):
+        rr.calculate(S.pos('dz', 0.001, 0.01), {'pins': None, 'cool': None, 'duct': None}, None, None, True, False)
+    S.eq('props.interior_equation_at_interior_temperature', seen['int'], cp(T_int))
+    S.eq('canary.props_interior_equation_at_stale_temperature', seen['int'], cp(T_stale), canary=True)
+
+
+property_state.cname = 'RoddedRegion.calculate/property-state'
+property_state.run_kw = dict(check_div=False)
+
+
 def carry_over(S, cfg):
     """region change: every coolant node of the new region gets the mixed-mean
     temperature of the old one, hence the new mixed mean equals the old one"""
@@ -359,6 +398,8 @@ def configs(tier):
         out.append((unrodded, dict(model=model, lowflow=True)))
         out.append((unrodded, dict(model=model, adiabatic=True)))
         out.append((unrodded, dict(model=model, mratio=1.0)))
+    out.append((property_state, dict(n_duct=2)))
+    out.append((property_state, dict(n_duct=3)))
     out.append((weights_frozen, dict(n_ring=2)))
     out.append((weights_frozen, dict(n_ring=2, n_duct=2)))
     out.append((carry_over, dict(kind='rr->ur')))
